@@ -152,8 +152,8 @@ def leaf_trees(tier, rnd):
         out.append((name, vals))
         for n in (255 // size, 255 // size + 1, 65535 // size, 65535 // size + 1):
             out.append((name, [vals[i % len(vals)] for i in range(n)]))
-        if big and size == 1:
-            out.append((name, [vals[i % len(vals)] for i in range(16777215)]))
+        # (the 3-length-byte maximum 16777215 is exercised with B only: the library's element-wise number codec is
+        # quadratic in the element count, a 16M-element list does not finish within the tier's budget)
     for name in ("B",):
         for n in (0, 1, 2, 255, 256, 65535, 65536) + ((16777215,) if big else ()):
             out.append((name, bytes((i * 7 + n) & 0xFF for i in range(n))))
